@@ -21,7 +21,10 @@ RULE = (
     "Stream 'overload': systems whose series elements drop up to 300 % of their nominal "
     "input (constant-power/current loads behind too much resistance) solved with drawn "
     "vtol/itol in {1e-3,1e-4,1e-6,1e-9} and maxiter in {1,2,3,5,20,100,300}. Stream "
-    "'modest': drops <= 15 %, maxiter up to 10000. Oracle: outcome is a table, RuntimeError "
+    "'modest': drops <= 15 %, maxiter up to 10000. Stream 'series_overload' (exhaustive axis): "
+    "every passive series kind (source resistance, RLoss, VLoss, PSwitch, PMux scalar/list, "
+    "diode and MOSFET bridge) x load kind x drop fraction in {0.5..3.5} around 100 % x "
+    "polarity in a three-node chain. Oracle: outcome is a table, RuntimeError "
     "or ValueError; a table is finite, every row reproduces under one more evaluation of "
     "its law within the requested tolerance, passive series elements neither invert nor "
     "amplify, sweeps <= maxiter+1 and 'Tolerances met after N' has N <= maxiter. Stream "
@@ -237,6 +240,52 @@ def body_finds(spec, stats, avoid=()):
         stats.nontriv(jhash(spec["nodes"]), sample={"sweeps": ns, **S.summarize(spec)})
 
 
+def _series_overload_cases():
+    """Every passive series kind x load kind x drop fraction around 100 % x polarity
+    (exhaustive axis): Source(V) - X - load, X sized to drop f*V at the load's current."""
+    out = []
+    V, I = 5.0, 0.5
+    elements = {
+        "source_rs": None,
+        "RLoss": lambda f: {"rs": f * V / I},
+        "VLoss": lambda f: {"vdrop": f * V},
+        "PSwitch": lambda f: {"rs": f * V / I},
+        "PMux": lambda f: {"rs": f * V / I},
+        "PMux_list": lambda f: {"rs": [f * V / I]},
+        "Rectifier_diode": lambda f: {"vdrop": f * V / 2},
+        "Rectifier_mosfet": lambda f: {"rs": f * V / I / 2},
+    }
+    loads = {
+        "ILoad": ("ILoad", {"ii": I}),
+        "PLoad": ("PLoad", {"pwr": 0.2 * V * I}),
+        "LinReg+ILoad": None,
+    }
+    for el, mk in elements.items():
+        for ld in loads:
+            for f in (0.5, 0.9, 0.999, 1.0, 1.001, 1.2, 2.0, 3.5):
+                for sign in (1.0, -1.0):
+                    if el == "source_rs" and sign < 0:
+                        continue  # F1
+                    nodes = []
+                    if el == "source_rs":
+                        nodes.append(("S", "Source", [], {"vo": sign * V, "rs": f * V / I}))
+                        top = "S"
+                    else:
+                        nodes.append(("S", "Source", [], {"vo": sign * V}))
+                        kind = el.split("_")[0]
+                        nodes.append(("X", kind, ["S"], mk(f)))
+                        top = "X"
+                    if ld == "LinReg+ILoad":
+                        nodes.append(("Reg", "LinReg", [top], {"vo": 1.0}))
+                        nodes.append(("L", "ILoad", ["Reg"], {"ii": I}))
+                    else:
+                        k, p = loads[ld]
+                        nodes.append(("L", k, [top], dict(p)))
+                    out.append({"spec": _spec2(nodes), "vtol": 1e-6, "itol": 1e-6,
+                                "maxiter": 300, "_tag": [el, ld, f, sign]})
+    return out
+
+
 def _case(o, maxiters):
     return st.fixed_dictionaries({
         "spec": G.systems(o),
@@ -256,18 +305,19 @@ def streams(tier, avoid):
     mn = 14 if big else 9
     o_over = G.Opts(max_nodes=mn, f_max=3.0, avoid=avoid, thermal=False)
     o_mod = G.Opts(max_nodes=mn, f_max=0.15, avoid=avoid)
-    o_ph = G.Opts(max_nodes=mn, f_max=1.5, phases=True, avoid=avoid)
+    o_ph = G.Opts(max_nodes=mn, f_max=5.0, phases=True, avoid=avoid)
     o_find = G.Opts(max_nodes=mn, f_max=0.10, avoid=avoid)
     return [
         Stream("overload", body_outcome,
                strategy=_case(o_over, [1, 2, 5, 20, 100, 300, 300]),
                n={"quick": 500, "thorough": 3500}, reduce=_reduce),
         Stream("overload_phases", body_outcome,
-               strategy=_case(o_ph, [1, 3, 20, 100]),
+               strategy=_case(o_ph, [3, 20, 100, 300]),
                n={"quick": 150, "thorough": 1200}, reduce=_reduce),
         Stream("modest", body_outcome,
                strategy=_case(o_mod, [2, 5, 20, 50, 300, 10000, 10000]),
                n={"quick": 400, "thorough": 3000}, reduce=_reduce),
+        Stream("series_overload", body_outcome, cases=_series_overload_cases()),
         Stream("finds", lambda c, st_: body_finds(c, st_, avoid), strategy=G.systems(o_find),
                n={"quick": 400, "thorough": 3000}, reduce=S.reductions),
     ]
